@@ -2642,7 +2642,7 @@ class Entity(MutableMapping[str, str]):
         ]
         outs = [o.copy() for o in self.outputs]
 
-        return Entity(
+        new_ent = Entity(
             vmf_file=vmf_file or self.map,
             keys=self._keys,  # __init__() copies for us.
             fixup=self._fixup.copy_values() if self._fixup is not None else (),
@@ -2659,6 +2659,9 @@ class Entity(MutableMapping[str, str]):
             vis_ids=self.visgroup_ids if keep_vis else (),
             comments=self.comments,
         )
+        # __init__() substitutes a default derived from the new ID for a blank position.
+        new_ent.logical_pos = self.logical_pos
+        return new_ent
 
     @staticmethod
     def parse(
